@@ -12,3 +12,35 @@ package sortref
 //@ func TopmostFirst(refs)
 //@   assumed
 //@   modifies nothing
+
+// safety (C09): keys are JSON-pointer keys of the analyzer ("#/..."), hence non-empty
+//@ func KeyParts(key)
+//@   aspect safe
+//@   requires len(key) >= 1
+//@   modifies nothing
+//@ func TopmostFirst(refs)
+//@   aspect safe
+//@   modifies nothing
+//@ func ReverseIndex(schemas, basePath)
+//@   aspect safe
+//@   modifies nothing
+//@ func (s SplitKey) BuildName(segments, startIndex, adder)
+//@   aspect safe
+//@   requires 0 <= startIndex && startIndex <= len(s)
+//@   modifies nothing
+//@ func (s SplitKey) ResponseName()
+//@   aspect safe
+//@   modifies nothing
+//@ func (s SplitKey) PathItemRef()
+//@   aspect safe
+//@   modifies nothing
+//@ func (s SplitKey) PathRef()
+//@   aspect safe
+//@   modifies nothing
+//@ func (s SplitKey) IsStatusCodeResponse()
+//@   aspect safe
+//@   modifies nothing
+//@ func (s SplitKey) isKeyName(i)
+//@   aspect safe
+//@   requires i <= len(s)
+//@   modifies nothing
